@@ -210,9 +210,11 @@ def k3_producer_partition(src, n):
         seen["key"], seen["all"], seen["avail"] = key, list(allp), list(avail)
         return allp[0]
 
-    prod = AIOKafkaProducer.__new__(AIOKafkaProducer)
-    prod._metadata = cluster
-    prod._partitioner = part
+    from .common import in_loop
+    # a real, unstarted producer (its constructor runs); its cluster metadata is the object fed here
+    prod = in_loop(lambda: AIOKafkaProducer(bootstrap_servers="h:9092", partitioner=part))
+    prod._metadata.update_metadata(md)
+    cluster = prod._metadata
     prod._partition("t", None, "k", None, b"serialized-k", None)
     src.check(seen.get("key") == b"serialized-k", "partitioner did not receive the serialized key")
     want = sorted(range(n), reverse=src.twin and n > 1) if not (src.twin and n == 1) else [1]
@@ -224,6 +226,15 @@ def k3_producer_partition(src, n):
     explicit = src.choice("explicit", n)
     r = prod._partition("t", explicit, "k", None, b"x", None)
     src.check(r == explicit, "explicit partition not honoured")
+    # the topic's partition count changes (metadata update): the very next record sees the new list
+    n2 = max(1, n + [1, -1, 3][src.choice("partition_count_changes_by", 3)])
+    md2 = MetadataResponse_v1([(0, "h", 9092, None)], 0, [(0, "t", False, [(0, p, 0, [0], [0]) for p in range(n2)])])
+    cluster.update_metadata(md2)
+    seen.clear()
+    prod._partition("t", None, "k", None, b"serialized-k", None)
+    src.check(seen.get("all") == list(range(n2)),
+              "after the topic's partition count changed the partitioner is still handed the old partition list",
+              got=seen.get("all"), partitions_now=n2)
 
 
 def harnesses(tier):
@@ -270,6 +281,6 @@ def harnesses(tier):
             name=f"K3_producer_partition_n{n}", fn=k3_producer_partition, params={"n": n},
             functions=[__import__("aiokafka.producer.producer", fromlist=["x"]).AIOKafkaProducer._partition],
             shape="U", symbolic_vars="metadata arrival order (3 orders), leaderless partition, explicit partition (choices)",
-            bounds={"partitions": n}, twin_max_paths=40, max_paths=20000,
+            bounds={"partitions": n}, twin_max_paths=40, max_paths=100000,
             note="finite check (stated as such in DESIGN C17-K3): list(set_of_ids) relies on CPython set order"))
     return hs
